@@ -404,6 +404,15 @@ def run(ck):
     ck.floor("C07.G14 functions scanned for attribute reads under isinstance guards", n_fn, 150)
     if not n_hit:
         ck.ok("C07.G14", "run path", "src/", f"{n_fn} functions: every attribute read under an isinstance guard exists on the guarded class(es)")
+    ck.clause("C07.G21", "a row finds its molecule: the original query of a first-pass row is looked up by id in the whole query list (as "
+                         "C10.2) - a lookup that can come back empty (rows paired with queries by position, a binary search over an "
+                         "unsorted list) ends in an AttributeError on None and the run writes nothing")
+    from . import c10 as _c10_07
+    _c10_07.lookups(RuleView(ck, {"C10.2": "C07.G21"}, only_constructs=(":original-query", ":queries-argument")))
+    ck.clause("C07.G22", "the row lists that resolve hands back hold rows only (as C08.5): a group appended as one element makes the "
+                         "writer of the 'joined' mode abort")
+    from . import c08 as _c08_07
+    _c08_07._resolve_conservation(RuleView(ck, {"C08.5": "C07.G22"}, only_constructs=(":nested-group",)))
     ck.clause("C07.G20", "no option accepts less than it did: a narrowed type or choice list turns a setting the help allows into a usage "
                          "error (exit status 2, no XMAP written)")
     from ..rules.common import option_interface
